@@ -608,6 +608,8 @@ func (e *FnEnc) convert(i *ssa.Convert) {
 			e.emit(fmt.Sprintf("(assert (forall ((i!q Int)) (! (=> (and (<= 0 i!q) (< i!q (str.len %s))) (= (select %s i!q) (str.to_code (str.at %s i!q)))) :pattern ((select %s i!q)))))", x.T, arr, x.T, arr))
 			e.setHeap(h, sx("store", e.heap(h), r, arr))
 			e.setVal(i, sx("mkslice", r, sx("str.len", x.T)))
+			// the bytes of a string convert back to that string
+			e.assume(sx("=", e.W.UF("str.ofbytes", []string{"(Array Int Int)", "Int"}, "String", arr, sx("str.len", x.T)), x.T))
 		} else {
 			e.havocVal(i)
 		}
